@@ -190,6 +190,9 @@ type Action struct {
 	// FieldTypeIDs: render the type of every field of the struct through snippet.ID (`var _ <type>`), the way
 	// generators that re-declare or copy fields do
 	FieldTypeIDs bool `json:"field_type_ids,omitempty"`
+	// MethodsOfFieldTypes: ask Package.MethodsOf (all, then value receivers only) about the type itself and about the
+	// named type of every field, and render the method names (sorted) as comments
+	MethodsOfFieldTypes bool `json:"methods_of_field_types,omitempty"`
 	// Recovered: text rendered through a template that ends in an unbound name: the render panics after it
 	// yielded this text, and the generator recovers from the panic and carries on (a legal thing to do)
 	Recovered string `json:"render_that_panics_and_is_recovered,omitempty"`
@@ -423,6 +426,41 @@ func (in *inst) generate(gen string, c gengo.Context, named *types.Named) error 
 		if st, ok := named.Underlying().(*types.Struct); ok {
 			for i := 0; i < st.NumFields(); i++ {
 				c.RenderT(fmt.Sprintf("var _ft%d_%s_%s @t\n", i, typ, gen), snippet.IDArg("t", st.Field(i).Type()))
+			}
+		}
+	}
+	if a.MethodsOfFieldTypes {
+		ask := func(n *types.Named) {
+			if n.Obj().Pkg() == nil {
+				return
+			}
+			p := c.Package(n.Obj().Pkg().Path())
+			if p == nil {
+				return
+			}
+			names := func(fs []*types.Func) string {
+				var out []string
+				for _, f := range fs {
+					out = append(out, f.Name())
+				}
+				sort.Strings(out)
+				return strings.Join(out, ",")
+			}
+			// (all methods first: whatever the value-receiver question leaves behind shows in the NEXT package that asks)
+			all := names(p.MethodsOf(n, true))
+			v := names(p.MethodsOf(n, false))
+			c.Render(snippet.Block(fmt.Sprintf("// METHODS of %s.%s: value receivers [%s], all [%s]\n", n.Obj().Pkg().Path(), n.Obj().Name(), v, all)))
+		}
+		ask(named)
+		if st, ok := named.Underlying().(*types.Struct); ok {
+			for i := 0; i < st.NumFields(); i++ {
+				ft := st.Field(i).Type()
+				if pt, ok := ft.(*types.Pointer); ok {
+					ft = pt.Elem()
+				}
+				if fn, ok := ft.(*types.Named); ok {
+					ask(fn)
+				}
 			}
 		}
 	}
